@@ -24,8 +24,8 @@ using sim::Rng;
 
 namespace {
 
-enum OpKind : uint16_t { kCallStub, kLocalTable, kRipData, kAbsData, kRelData, kPad, kOpCount };
-const char* const kOpNames[kOpCount] = {"call_stub", "local_table", "rip_data", "abs32_data", "forced_rel_data", "pad"};
+enum OpKind : uint16_t { kCallStub, kLocalTable, kRipData, kAbsData, kRelData, kPad, kPtrData, kOpCount };
+const char* const kOpNames[kOpCount] = {"call_stub", "local_table", "rip_data", "abs32_data", "forced_rel_data", "pad", "ptr_data"};
 const char* op_name(uint16_t k) { return k < kOpCount ? kOpNames[k] : "?"; }
 
 struct Stub { void* page; uint8_t* code; uint32_t value; int window; };
@@ -61,12 +61,19 @@ Built build_program(const Plan& plan, World& w, CodeHolder& code, x86::Assembler
   Built b;
   Section* data_section = nullptr;
   Section* tail_section = nullptr;
+  Section* fn_section = nullptr;
+  // local functions may live in a second executable section, so that labels referenced by embedded addresses are bound
+  // in a section whose offset is not zero
+  if (plan.get("fn_section", 0)) { b.err = code.new_section(Out(fn_section), ".text2", SIZE_MAX, SectionFlags::kExecutable, 16, 0); if (b.err != Error::kOk) return b; }
+  bool tables_early = plan.get("tables_early", 0) != 0;   // embedded label addresses are emitted BEFORE their labels are bound
   if (plan.get("data_section", 0)) { b.err = code.new_section(Out(data_section), ".data", SIZE_MAX, SectionFlags::kNone, 8, 1); if (b.err != Error::kOk) return b; }
 
   std::vector<std::pair<Label, uint32_t>> local_fns;      // label, constant
   std::vector<std::pair<Label, uint64_t>> rip_datas;      // label, value
   struct Table { Label label; std::vector<Label> entries; };
   std::vector<Table> tables;
+  struct PtrSlot { Label slot; Label data; uint64_t value; };
+  std::vector<PtrSlot> ptr_slots;
 
   a.push(x86::rbx);
   a.xor_(x86::ebx, x86::ebx);
@@ -132,6 +139,15 @@ Built build_program(const Plan& plan, World& w, CodeHolder& code, x86::Assembler
         b.expected += d.value;
         break;
       }
+      case kPtrData: {
+        // the value is reached through an embedded absolute address: mov rax, [rip + slot] ; add rbx, [rax]
+        PtrSlot ps; ps.slot = a.new_label(); ps.data = a.new_label(); ps.value = uint64_t(op.a[0]) & 0xffffffffffull;
+        a.mov(x86::rax, x86::qword_ptr(ps.slot));
+        a.add(x86::rbx, x86::qword_ptr(x86::rax));
+        b.expected += ps.value;
+        ptr_slots.push_back(ps);
+        break;
+      }
       case kPad: { for (int64_t i = 0; i < (op.a[0] % 64); i++) a.nop(); break; }
       default: break;
     }
@@ -140,9 +156,17 @@ Built build_program(const Plan& plan, World& w, CodeHolder& code, x86::Assembler
   a.pop(x86::rbx);
   if (plan.get("tail_jump", 0) && w.ret_stub) a.jmp(Imm(uint64_t(uintptr_t(w.ret_stub)))); else a.ret();
 
+  auto emit_tables = [&]() {
+    for (auto& t : tables) { a.align(AlignMode::kData, 8); a.bind(t.label); for (auto& e : t.entries) a.embed_label(e, 8); }
+    for (auto& ps : ptr_slots) { a.align(AlignMode::kData, 8); a.bind(ps.slot); a.embed_label(ps.data, 8); }
+  };
+  if (tables_early) { emit_tables(); if (!tables.empty() || !ptr_slots.empty()) sim::count("c04.probe.forward_embedded_address"); }
+  if (fn_section) a.section(fn_section);
   for (auto& f : local_fns) { a.align(AlignMode::kCode, 16); a.bind(f.first); a.mov(x86::eax, Imm(f.second)); a.ret(); }
   if (data_section) a.section(data_section);
-  for (auto& t : tables) { a.align(AlignMode::kData, 8); a.bind(t.label); for (auto& e : t.entries) a.embed_label(e, 8); }
+  if (tables_early) for (auto& ps : ptr_slots) { a.align(AlignMode::kData, 8); a.bind(ps.data); a.embed_data_array(TypeId::kUInt64, &ps.value, 1); }
+  else { for (auto& ps : ptr_slots) { a.align(AlignMode::kData, 8); a.bind(ps.data); a.embed_data_array(TypeId::kUInt64, &ps.value, 1); } emit_tables(); }
+  if ((fn_section || data_section) && (!tables.empty() || !ptr_slots.empty())) sim::count("c04.probe.cross_section_embedded_address");
   for (auto& d : rip_datas) { a.align(AlignMode::kData, 8); a.bind(d.first); a.embed_data_array(TypeId::kUInt64, &d.second, 1); }
   if (plan.get("tail_section", 0)) {
     // a user section ordered after .addrtab (same order value, higher id when .addrtab already exists)
@@ -280,12 +304,14 @@ Plan generate_sim(uint64_t seed, bool thorough) {
   p.set("datas", int64_t(1 + cfg.below(3)));
   p.set("data_section", int64_t(cfg.below(2)));
   p.set("tail_section", int64_t(cfg.below(2)));
+  p.set("fn_section", int64_t(cfg.below(2)));
+  p.set("tables_early", int64_t(cfg.below(2)));
   p.set("shift", int64_t(cfg.below(4)));
   size_t n = size_t(1 + r.below(thorough ? 24 : 12));
   bool allow_forced_rel = cfg.chance(1, 3);
   for (size_t i = 0; i < n; i++) {
     Op op;
-    static const uint16_t ks[] = {kCallStub, kCallStub, kCallStub, kLocalTable, kRipData, kAbsData, kRelData, kPad};
+    static const uint16_t ks[] = {kCallStub, kCallStub, kCallStub, kLocalTable, kRipData, kAbsData, kRelData, kPad, kPtrData};
     op.kind = r.pick(ks);
     if (op.kind == kRelData && !allow_forced_rel) op.kind = kAbsData;
     op.a[0] = int64_t(r.next() & 0x7fffffffffll); op.a[1] = int64_t(r.below(100000));
@@ -301,6 +327,30 @@ Plan generate_sim(uint64_t seed, bool thorough) {
 
 static const uint64_t kBases[] = {0x0, 0x1000, 0x7ffff000ull, 0x80000000ull, 0xfffff000ull, 0x100000000ull, 0x7ffffffff000ull, 0x800000000000ull, 0x7ffffffffffff000ull, 0x8000000000000000ull, 0xfffffffffff00000ull};
 
+// Where does a call/jmp/jcc that starts at image offset `start` and ends at `end` go? Returns false when the bytes are
+// none of the encodings the assembler / relocator produce for an absolute target.
+bool decode_branch(const std::vector<uint8_t>& img, size_t size, size_t start, size_t end, uint64_t base, bool is64, size_t addrtab_off, uint64_t* designated, bool* via_table) {
+  *via_table = false;
+  const uint8_t* p = img.data() + start;
+  size_t len = end - start;
+  if (is64 && len >= 1 && p[0] == 0x40) { p++; len--; }   // the REX byte reserved so that the instruction can be patched
+  int64_t rel; uint64_t mask = is64 ? ~0ull : 0xffffffffull;
+  if (len == 5 && (p[0] == 0xE8 || p[0] == 0xE9)) { int32_t r; memcpy(&r, p + 1, 4); rel = r; }
+  else if (len == 6 && p[0] == 0x0F && (p[1] & 0xF0) == 0x80) { int32_t r; memcpy(&r, p + 2, 4); rel = r; }
+  else if (len == 2 && (p[0] == 0xEB || (p[0] & 0xF0) == 0x70)) rel = int8_t(p[1]);
+  else if (is64 && end - start == 6 && img[start] == 0xFF && (img[start + 1] == 0x15 || img[start + 1] == 0x25)) {
+    int32_t r; memcpy(&r, img.data() + start + 2, 4);
+    size_t slot_off = size_t(int64_t(end) + r);
+    SIM_CHECK(slot_off + 8 <= size && slot_off >= addrtab_off && addrtab_off != 0, "c04:address-table-slot", "call/jmp through the address table points to image offset %zu, outside the table", slot_off);
+    memcpy(designated, img.data() + slot_off, 8);
+    *via_table = true;
+    return true;
+  }
+  else return false;
+  *designated = (base + uint64_t(end) + uint64_t(rel)) & mask;
+  return true;
+}
+
 void execute_decode(const Plan& plan) {
   int target = int(plan.get("target", 0));   // 0 x86-32, 1 x86-64, 2 a64
   Arch arch = target == 0 ? Arch::kX86 : target == 1 ? Arch::kX64 : Arch::kAArch64;
@@ -312,36 +362,75 @@ void execute_decode(const Plan& plan) {
   {
     CodeHolder code;
     SIM_CHECK(code.init(Environment(arch), known ? base : Globals::kNoBaseAddress) == Error::kOk, "c04:setup", "init failed");
-    struct Site { int kind; size_t end; uint64_t target; Label label; size_t at; };   // kind 0 rel32 to abs target, 1 abs field of label (size 4/8), 2 abs32 mem of label
+    // kind 0 call/jmp/jcc to an absolute target, 1 embedded address of a label (size 4/8), 2 abs32 memory operand [label+disp]
+    struct Site { int kind; uint32_t section_id; size_t start, end; uint64_t target; Label label; bool jcc; };
     std::vector<Site> sites;
     std::vector<Label> labels;
     std::unique_ptr<BaseEmitter> e;
     if (target == 2) e.reset(new a64::Assembler(&code)); else e.reset(new x86::Assembler(&code));
     BaseAssembler& a = static_cast<BaseAssembler&>(*e);
     size_t ptr_size = target == 0 ? 4 : 8;
+    Section* data_section = nullptr;
+    if (plan.get("bind_section", 0)) SIM_CHECK(code.new_section(Out(data_section), ".data", SIZE_MAX, SectionFlags::kNone, 8, 1) == Error::kOk, "c04:setup", "new_section failed");
+    auto nops = [&](size_t n) { for (size_t i = 0; i < n; i++) { if (target == 2) static_cast<a64::Assembler&>(a).nop(); else static_cast<x86::Assembler&>(a).nop(); } };
+    auto embed_site = [&](Label l) { size_t at = a.offset(); if (a.embed_label(l, ptr_size) == Error::kOk) sites.push_back(Site{1, a.current_section()->section_id(), at, at + ptr_size, 0, l, false}); };
+    auto mem_site = [&](Label l, int64_t disp) { size_t at = a.offset(); if (static_cast<x86::Assembler&>(a).mov(x86::eax, x86::dword_ptr(l, int32_t(disp))) == Error::kOk) sites.push_back(Site{2, a.current_section()->section_id(), at, a.offset(), uint64_t(disp), l, false}); };
+    bool unreachable_jcc_possible = false;
     for (const Op& op : plan.ops) {
       if (target != 2) {
         x86::Assembler& xa = static_cast<x86::Assembler&>(a);
         switch (op.kind) {
-          case kCallStub: { uint64_t t = target == 0 ? (uint64_t(op.a[0]) & 0xffffffffull) : ((op.a[1] % 3) == 2 ? (uint64_t(op.a[0]) * 0x9E3779B1ull) & 0x7fffffffffffull : (base + uint64_t(int64_t(int32_t(op.a[0] & 0x3fffffff)) - 0x10000000))); Error er = (op.a[1] & 1) ? xa.call(Imm(t)) : xa.jmp(Imm(t)); if (er == Error::kOk) sites.push_back(Site{0, a.offset(), t, Label(), 0}); break; }
-          case kLocalTable: { Label l = a.new_label(); labels.push_back(l); size_t at = a.offset(); if (a.embed_label(l, ptr_size) == Error::kOk) sites.push_back(Site{1, 0, 0, l, at}); break; }
-          case kRipData: { if (target != 0) break; Label l = a.new_label(); labels.push_back(l); if (xa.mov(x86::eax, x86::dword_ptr(l, int32_t(op.a[1] & 0xff))) == Error::kOk) sites.push_back(Site{2, a.offset(), uint64_t(op.a[1] & 0xff), l, 0}); break; }
-          default: for (int64_t i = 0; i < (op.a[0] % 17); i++) xa.nop(); break;
+          case kCallStub: {
+            int form = int(op.a[2] % 5);   // 0,1 call  2,3 jmp  4 jcc
+            size_t before = a.offset();
+            uint64_t t;
+            static const int64_t kDeltas[] = {-0x1000, -64, -7, -6, -5, -2, -1, 0, 1, 2, 5, 6, 7, 64, 0x1000};
+            switch (int(op.a[3] % 6)) {
+              default: t = base + uint64_t(int64_t(int32_t(op.a[0] & 0x3fffffff)) - 0x10000000); break;
+              case 2: t = (uint64_t(op.a[0]) * 0x9E3779B1ull) & 0x7fffffffffffull; break;
+              // around the two ends of the rel32 range, measured from the base, from the instruction and from its end
+              case 3: t = base - 0x80000000ull + uint64_t(kDeltas[size_t(op.a[0] >> 8) % 15]) + ((op.a[0] & 1) ? uint64_t(before) : 0) + ((op.a[0] & 2) ? 5u : 0u); break;
+              case 4: t = base + 0x7fffffffull + uint64_t(kDeltas[size_t(op.a[0] >> 8) % 15]) + ((op.a[0] & 1) ? uint64_t(before) : 0) + ((op.a[0] & 2) ? 5u : 0u); break;
+              case 5: t = base + uint64_t(before) + uint64_t(int64_t(op.a[0] % 300) - 150); break;   // short forms when the base is known
+            }
+            if (target == 0) t &= 0xffffffffull;
+            Error er = form < 2 ? xa.call(Imm(t)) : form < 4 ? xa.jmp(Imm(t)) : xa.jz(Imm(t));
+            if (er == Error::kOk) { sites.push_back(Site{0, 0, before, a.offset(), t, Label(), form == 4}); if (form == 4 && target == 1 && !known) unreachable_jcc_possible = true; }
+            else {
+              // only a conditional jump assembled with a known base may be refused, and only when its target is out of reach
+              bool legit = form == 4 && target == 1 && known && !reachable_rel32(base + before + 6, t);
+              SIM_CHECK(legit, "c04:reachable-target-refused", "%s onto %#llx at offset %zu was refused with error %u (base %s)", form < 2 ? "call" : form < 4 ? "jmp" : "jz", (unsigned long long)t, before, unsigned(er), known ? "known" : "unknown");
+              sim::count("c04.probe.unreachable_refused_at_emit");
+            }
+            break;
+          }
+          case kLocalTable: { Label l = a.new_label(); labels.push_back(l); embed_site(l); break; }
+          case kRipData: { if (target != 0) break; Label l = a.new_label(); labels.push_back(l); mem_site(l, op.a[1] & 0xff); break; }
+          default: nops(size_t(op.a[0] % 17)); break;
         }
       }
       else {
-        a64::Assembler& aa = static_cast<a64::Assembler&>(a);
         switch (op.kind) {
-          case kLocalTable: { Label l = a.new_label(); labels.push_back(l); size_t at = a.offset(); if (a.embed_label(l, 8) == Error::kOk) sites.push_back(Site{1, 0, 0, l, at}); break; }
-          default: for (int64_t i = 0; i < (op.a[0] % 9); i++) aa.nop(); break;
+          case kLocalTable: { Label l = a.new_label(); labels.push_back(l); embed_site(l); break; }
+          default: nops(size_t(op.a[0] % 9)); break;
         }
       }
     }
-    // bind labels at drawn positions after some padding
+    // bind the labels at drawn positions (possibly in a second section), then reference some of them again: backward
+    // references, from the section the label lives in and from the other one
     Rng r = sim::stream(plan.seed, "bind");
-    for (auto& l : labels) { size_t pad = size_t(r.below(5)); for (size_t i = 0; i < pad; i++) { if (target == 2) static_cast<a64::Assembler&>(a).nop(); else static_cast<x86::Assembler&>(a).nop(); } a.bind(l); uint32_t v = uint32_t(r.next()); a.embed(&v, 4); }
+    if (data_section) a.section(data_section);
+    for (auto& l : labels) { nops(size_t(r.below(5))); if (target == 2) a.align(AlignMode::kZero, 4); a.bind(l); uint32_t v = uint32_t(r.next()); a.embed(&v, 4); }
+    for (auto& l : labels) {
+      if (!r.chance(1, 2)) continue;
+      if (data_section) a.section(r.chance(1, 2) ? data_section : code.text_section());
+      if (target == 2) a.align(AlignMode::kZero, 4);
+      if (target == 0 && r.chance(1, 2)) mem_site(l, int64_t(r.below(200))); else embed_site(l);
+      sim::count("c04.probe.decode_backward_reference");
+    }
     Error err = code.flatten();
     if (err == Error::kOk) err = code.resolve_cross_section_fixups();
+    // (relocate_to_base() is documented as "should never be called more than once": relocation ORs into zero fields.)
     if (err == Error::kOk) err = code.relocate_to_base(base);
     sim::logf("decode target=%d base=%#llx known=%d sites=%zu err=%u", target, (unsigned long long)base, int(known), sites.size(), unsigned(err));
     if (err == Error::kOk) {
@@ -351,35 +440,40 @@ void execute_decode(const Plan& plan) {
       uint64_t mask = target == 0 ? 0xffffffffull : ~0ull;
       size_t addrtab_off = code.has_address_table_section() ? size_t(code.address_table_section()->offset()) : 0;
       for (auto& s : sites) {
+        size_t sec_off = size_t(code.section_by_id(s.section_id)->offset());
         if (s.kind == 0) {
-          int32_t rel; memcpy(&rel, img.data() + s.end - 4, 4);
-          uint64_t designated;
-          uint8_t opc = s.end >= 5 ? img[s.end - 5] : 0;
-          if (target == 1 && s.end >= 6 && img[s.end - 6] == 0xFF && (opc == 0x15 || opc == 0x25)) {
-            // rewritten to call/jmp [rip+slot]: the slot holds the absolute target
-            size_t slot_off = size_t(int64_t(s.end) + rel);
-            SIM_CHECK(slot_off + 8 <= size && slot_off >= addrtab_off, "c04:address-table-slot", "call/jmp through the address table points to offset %zu, outside the table", slot_off);
-            memcpy(&designated, img.data() + slot_off, 8);
-            sim::count("c04.probe.decode_address_table");
-          }
-          else designated = (base + uint64_t(s.end) + uint64_t(int64_t(rel))) & mask;
-          SIM_CHECK(designated == (s.target & mask), "c04:wrong-target", "call/jmp at offset %zu relocated to base %#llx designates %#llx, requested %#llx", s.end, (unsigned long long)base, (unsigned long long)designated, (unsigned long long)(s.target & mask));
+          uint64_t designated = 0; bool via_table = false;
+          bool ok = decode_branch(img, size, sec_off + s.start, sec_off + s.end, base, target == 1, addrtab_off, &designated, &via_table);
+          SIM_CHECK(ok, "c04:wrong-target", "the %zu bytes at offset %zu are not a call/jmp/jcc encoding after relocation to %#llx", s.end - s.start, s.start, (unsigned long long)base);
+          if (via_table) sim::count("c04.probe.decode_address_table");
+          SIM_CHECK(designated == (s.target & mask), "c04:wrong-target", "call/jmp at offset %zu..%zu relocated to base %#llx (base %s at assembly time) designates %#llx%s, requested %#llx", s.start, s.end, (unsigned long long)base,
+                    known ? "known" : "unknown", (unsigned long long)designated, via_table ? " (address table)" : "", (unsigned long long)(s.target & mask));
         }
         else if (s.kind == 1) {
-          uint64_t v = 0; memcpy(&v, img.data() + s.at, ptr_size);
-          uint64_t want = (base + code.label_offset(s.label)) & mask;
-          SIM_CHECK(v == want, "c04:wrong-target", "embedded label address at offset %zu is %#llx after relocation to %#llx, expected %#llx", s.at, (unsigned long long)v, (unsigned long long)base, (unsigned long long)want);
+          uint64_t v = 0; memcpy(&v, img.data() + sec_off + s.start, ptr_size);
+          uint64_t want = (base + code.label_offset_from_base(s.label)) & mask;
+          SIM_CHECK(v == want, "c04:wrong-target", "embedded label address at offset %zu of section %u is %#llx after relocation to %#llx, expected %#llx", s.start, s.section_id, (unsigned long long)v, (unsigned long long)base, (unsigned long long)want);
         }
         else {
-          uint32_t v; memcpy(&v, img.data() + s.end - 4, 4);
-          uint64_t want = (base + code.label_offset(s.label) + s.target) & mask;
+          uint32_t v; memcpy(&v, img.data() + sec_off + s.end - 4, 4);
+          uint64_t want = (base + code.label_offset_from_base(s.label) + s.target) & mask;
           SIM_CHECK(v == uint32_t(want), "c04:wrong-target", "[label+%llu] operand ending at offset %zu holds %#x after relocation to %#llx, expected %#llx", (unsigned long long)s.target, s.end, v, (unsigned long long)base, (unsigned long long)want);
         }
       }
       if (!sites.empty()) sim::mark_nontrivial();
       sim::count("c04.decode.sites", sites.size());
     }
-    else sim::count("c04.probe.decode_relocation_error");
+    else {
+      // A relocation error needs a reason: a conditional jump (which cannot be routed through the address table) whose
+      // target is out of reach from this base.
+      bool legit = false;
+      if (unreachable_jcc_possible) for (auto& s : sites) if (s.kind == 0 && s.jcc && !reachable_rel32(base + s.end, s.target)) legit = true;
+      // (x86-32: an image that would extend past the end of the 4 GiB address space cannot be placed there at all.)
+      // ([label+disp] operands use displacements up to 255 here, which may cross the end as well.)
+      if (target == 0 && base + code.code_size() + 256 > 0x100000000ull) { legit = true; sim::count("c04.probe.decode_image_wraps_address_space"); }
+      SIM_CHECK(legit, "c04:relocation-failed", "relocate_to_base(%#llx) failed with error %u although every target can be reached (directly or through the address table)", (unsigned long long)base, unsigned(err));
+      sim::count("c04.probe.decode_relocation_error");
+    }
   }
   sim::end_op();
   sim::add_steps(plan.ops.size());
@@ -395,17 +489,18 @@ Plan generate_decode(uint64_t seed, bool thorough) {
   p.set("base_jitter", int64_t(cfg.below(4096)));
   p.set("base_raw", int64_t(cfg.next() & 0x7ffffffffffff000ll));
   p.set("known_base", int64_t(cfg.below(2)));
+  p.set("bind_section", int64_t(cfg.below(2)));
   size_t n = size_t(1 + r.below(thorough ? 30 : 14));
   for (size_t i = 0; i < n; i++) {
     Op op; static const uint16_t ks[] = {kCallStub, kCallStub, kLocalTable, kRipData, kPad};
-    op.kind = r.pick(ks); op.a[0] = int64_t(r.next() & 0x7fffffffffffll); op.a[1] = int64_t(r.below(100000));
+    op.kind = r.pick(ks); op.a[0] = int64_t(r.next() & 0x7fffffffffffll); op.a[1] = int64_t(r.below(100000)); op.a[2] = int64_t(r.below(5)); op.a[3] = int64_t(r.below(6));
     p.ops.push_back(op);
   }
   return p;
 }
 
 void shrink(const Plan& p, std::vector<Plan>& out) {
-  static const char* const zero_keys[] = {"policy", "shift", "tail_jump", "tail_far", "data_section", "tail_section", "stub_far_mask", "known_base", "base_jitter"};
+  static const char* const zero_keys[] = {"policy", "shift", "tail_jump", "tail_far", "data_section", "tail_section", "fn_section", "tables_early", "stub_far_mask", "known_base", "base_jitter", "bind_section"};
   for (const char* k : zero_keys) if (p.get(k)) { Plan q = p; q.set(k, 0); out.push_back(q); }
 }
 
